@@ -11,8 +11,9 @@
 import SoundeventModel.Buffer
 import SoundeventModel.Bounds
 import Proofs.Lemmas.Bounds
+import Proofs.Lemmas.Buffer
 namespace SE.Proofs.C11
-open SE SE.Buf
+open SE SE.Buf SE.Proofs.Lemmas.Buffer
 
 private theorem maxf_nonneg : (0 : Rat) ≤ MAXF := by decide +kernel
 
@@ -345,5 +346,206 @@ example : valid (.point 1 10) = true ∧ closedForm (.point 1 10) = false ∧
     valid (.polygon [[(0, 0), (6, 0), (6, 110), (0, 110), (0, 0)]]) = true ∧
     (Geom.polygon [[(0, 0), (6, 0), (6, 110), (0, 110), (0, 0)]]).bounds = some ⟨0, 0, 6, 110⟩ ∧
     bufferPost ⟨1, 10, 1, 10⟩ 5 100 ⟨0, 0, 6, 110⟩ = true := by decide +kernel
+
+/-
+  ## The shapely pipeline (`buffer_shapely_geometry`) on point sets
+
+  `pipelineSet buf S tb fb m maxT` is the composition the function performs (scale by
+  `factor`, GEOS buffer of distance 1 = the parameter `buf`, unscale, clip to
+  `(0, 0, maxT + m, MAXF)`, `0 ≤ m`; `m = 1` in the source); the straight-line part is tied to the source by a symbolic trace
+  (`ext_buffer_shapely_geometry = pipelineSkeletonSpec`).  The theorems below are the property for
+  the six shapely-buffered types *given* what they assume of GEOS (`Extensive`, `CoversDisc ρ`,
+  `IsMaxTime`), each evaluated at run time on GEOS's actual output; with the exact unit buffer
+  `discBuf` all of them hold (`C11_pipeline_contracts_ideal`) and the result is computed in
+  closed form (`C11_pipeline_exact_ideal`).
+-/
+
+/-- the hypotheses about GEOS are satisfiable: the exact unit buffer meets them -/
+theorem C11_pipeline_contracts_ideal :
+    Extensive discBuf ∧ ∀ ρ : Rat, 0 ≤ ρ → ρ ≤ 1 → CoversDisc ρ discBuf := by
+  refine ⟨?_, ?_⟩
+  · intro T q hq
+    exact ⟨q, hq, by simp [dist2]⟩
+  · intro ρ h0 h1 T c q hc hd
+    exact ⟨c, hc, le_trans hd (by nlinarith)⟩
+
+/-- the scale factors are positive for every buffer: both transforms are order-preserving
+    bijections of each axis and the second undoes the first -/
+theorem C11_pipeline_scaling (tb fb : Rat) :
+    0 < factor tb ∧ 0 < factor fb ∧
+    (∀ p, unscalePt tb fb (scalePt tb fb p) = p) ∧ (∀ q, scalePt tb fb (unscalePt tb fb q) = q) ∧
+    (0 < tb → factor tb = 1 / tb) ∧ (0 < fb → factor fb = 1 / fb) :=
+  ⟨factor_pos tb, factor_pos fb, unscale_scale tb fb, scale_unscale tb fb,
+   factor_of_pos tb, factor_of_pos fb⟩
+
+/-- the result of the pipeline never leaves the valid domain, whatever GEOS returned -/
+theorem C11_pipeline_in_domain (buf : PSet → PSet) (S : PSet) (tb fb m maxT : Rat) (p : Pt)
+    (h : pipelineSet buf S tb fb m maxT p) : inDomain p := by
+  obtain ⟨⟨h1, _, h3, h4⟩, _⟩ := h
+  exact ⟨h1, h3, h4⟩
+
+/-- the clip rectangle's upper time `max_time + m` (`0 ≤ m`) never cuts anything: clipping only removes
+    what lies outside the valid domain -/
+theorem C11_pipeline_clip_is_domain (buf : PSet → PSet) (S : PSet) (tb fb m maxT : Rat)
+    (hm0 : 0 ≤ m) (hm : IsMaxTime buf S tb fb maxT) (p : Pt) :
+    pipelineSet buf S tb fb m maxT p ↔
+      inDomain p ∧ ∃ q, buf (scaled tb fb S) q ∧ p = unscalePt tb fb q := by
+  constructor
+  · rintro ⟨⟨h1, _, h3, h4⟩, q, hq, rfl⟩
+    exact ⟨⟨h1, h3, h4⟩, q, hq, rfl⟩
+  · rintro ⟨⟨h1, h3, h4⟩, q, hq, rfl⟩
+    refine ⟨⟨h1, ?_, h3, h4⟩, q, hq, rfl⟩
+    have := hm q hq
+    simp only [clipRect]; linarith
+
+/-- the result contains the original (if GEOS's buffer contains what it buffers) -/
+theorem C11_pipeline_contains (buf : PSet → PSet) (S : PSet) (tb fb m maxT : Rat)
+    (hm0 : 0 ≤ m) (hext : Extensive buf) (hm : IsMaxTime buf S tb fb maxT)
+    (hS : ∀ p, S p → inDomain p) : ∀ p, S p → pipelineSet buf S tb fb m maxT p := by
+  intro p hp
+  rw [C11_pipeline_clip_is_domain buf S tb fb m maxT hm0 hm]
+  exact ⟨hS p hp, scalePt tb fb p, hext _ _ ⟨p, hp, rfl⟩, (unscale_scale tb fb p).symm⟩
+
+/-- the result contains every point of the domain that lies within `ρ` buffer widths of a point of
+    the original (if GEOS's buffer contains the `ρ`-disc around every point it buffers): the
+    unit distance of the scaled space is one time buffer along the time axis and one frequency
+    buffer along the frequency axis -/
+theorem C11_pipeline_covers_buffers (buf : PSet → PSet) (S : PSet) (ρ tb fb m maxT : Rat)
+    (hm0 : 0 ≤ m) (hdisc : CoversDisc ρ buf) (hm : IsMaxTime buf S tb fb maxT)
+    (c p : Pt) (hc : S c) (hp : inDomain p) (hw : withinBuffers ρ tb fb p c) :
+    pipelineSet buf S tb fb m maxT p := by
+  rw [C11_pipeline_clip_is_domain buf S tb fb m maxT hm0 hm]
+  refine ⟨hp, scalePt tb fb p, ?_, (unscale_scale tb fb p).symm⟩
+  exact hdisc _ (scalePt tb fb c) _ ⟨c, hc, rfl⟩ ((dist2_scale _ tb fb p c).mpr hw)
+
+/-- with an exact unit buffer the result is exactly the set of points of the domain within one
+    time buffer / frequency buffer (elliptically) of the original -/
+theorem C11_pipeline_exact_ideal (S : PSet) (tb fb m maxT : Rat)
+    (hm0 : 0 ≤ m) (hm : IsMaxTime discBuf S tb fb maxT) (p : Pt) :
+    pipelineSet discBuf S tb fb m maxT p ↔ inDomain p ∧ ∃ c, S c ∧ withinBuffers 1 tb fb p c := by
+  rw [C11_pipeline_clip_is_domain discBuf S tb fb m maxT hm0 hm]
+  constructor
+  · rintro ⟨hd, q, ⟨c', ⟨c, hc, rfl⟩, hq⟩, rfl⟩
+    refine ⟨hd, c, hc, ?_⟩
+    have := (dist2_scale 1 tb fb (unscalePt tb fb q) c).mp (by rw [scale_unscale]; exact hq)
+    simpa [withinBuffers] using this
+  · rintro ⟨hd, c, hc, hw⟩
+    refine ⟨hd, scalePt tb fb p, ⟨scalePt tb fb c, ⟨c, hc, rfl⟩, ?_⟩, (unscale_scale tb fb p).symm⟩
+    have := (dist2_scale 1 tb fb p c).mpr (by simpa [withinBuffers] using hw)
+    exact this
+
+/-- larger buffers give supersets (exact unit buffer).  The hypotheses `hzt`, `hzf` exclude a zero
+    buffer against a positive one below 1e-9: the zero buffer is the factor 1e9, i.e. behaves as
+    the buffer 1e-9 (see `C11_pipeline_zero_vs_tiny_buffer`) -/
+theorem C11_pipeline_monotone_ideal (S : PSet) (tb fb tb' fb' m m' maxT maxT' : Rat)
+    (h1 : 0 ≤ tb) (h2 : 0 ≤ fb) (ht : tb ≤ tb') (hf : fb ≤ fb')
+    (hzt : tb = 0 → tb' = 0 ∨ 1 / 1000000000 ≤ tb') (hzf : fb = 0 → fb' = 0 ∨ 1 / 1000000000 ≤ fb')
+    (hm0 : 0 ≤ m) (hm0' : 0 ≤ m')
+    (hm : IsMaxTime discBuf S tb fb maxT) (hm' : IsMaxTime discBuf S tb' fb' maxT') :
+    ∀ p, pipelineSet discBuf S tb fb m maxT p → pipelineSet discBuf S tb' fb' m' maxT' p := by
+  intro p hp
+  rw [C11_pipeline_exact_ideal S tb fb m maxT hm0 hm] at hp
+  rw [C11_pipeline_exact_ideal S tb' fb' m' maxT' hm0' hm']
+  obtain ⟨hd, c, hc, hw⟩ := hp
+  exact ⟨hd, c, hc, within_mono tb fb tb' fb' p c (factor_anti tb tb' h1 ht hzt) (factor_anti fb fb' h2 hf hzf) hw⟩
+
+/-- the excluded case is a real property of the mechanism: a zero time buffer yields a result
+    1e-9 s wider on each side, which the result for the (larger) buffer 1e-10 s does not contain -/
+theorem C11_pipeline_zero_vs_tiny_buffer :
+    ∃ (S : PSet) (tb tb' fb maxT maxT' : Rat) (p : Pt),
+      0 ≤ tb ∧ tb ≤ tb' ∧ 0 ≤ fb ∧ (∀ p, S p → inDomain p) ∧
+      IsMaxTime discBuf S tb fb maxT ∧ IsMaxTime discBuf S tb' fb maxT' ∧
+      pipelineSet discBuf S tb fb 1 maxT p ∧ ¬ pipelineSet discBuf S tb' fb 1 maxT' p := by
+  have hmax : ∀ tb : Rat, 1 ≤ factor tb →
+      IsMaxTime discBuf (fun p => p = ((1 : Rat), (1000 : Rat))) tb 10 2 := by
+    intro tb h1 q hq
+    obtain ⟨c', ⟨c, hc, rfl⟩, hq⟩ := hq
+    subst hc
+    have h := coord_le_of_dist2 _ _ hq
+    have fp := factor_pos tb
+    simp only [scalePt, unscalePt] at *
+    rw [div_le_iff₀ fp]
+    linarith
+  have f0 : factor 0 = 1000000000 := factor_zero
+  have f1 : factor (1 / 10000000000) = 10000000000 := by
+    rw [factor_of_pos _ (by norm_num)]; norm_num
+  have f10 : factor 10 = 1 / 10 := factor_of_pos _ (by norm_num)
+  have m0 := hmax 0 (by rw [f0]; norm_num)
+  have m1 := hmax (1 / 10000000000) (by rw [f1]; norm_num)
+  refine ⟨_, 0, 1 / 10000000000, 10, 2, 2, ((1 : Rat) + 1 / 1000000000, (1000 : Rat)),
+    le_refl _, by norm_num, by norm_num, ?_, m0, m1, ?_, ?_⟩
+  · rintro p rfl
+    refine ⟨by norm_num, by norm_num, ?_⟩
+    show (1000 : Rat) ≤ MAXF
+    decide +kernel
+  · rw [C11_pipeline_exact_ideal _ _ _ _ _ (by norm_num) m0]
+    refine ⟨⟨by norm_num, by norm_num, by show (1000 : Rat) ≤ MAXF; decide +kernel⟩, _, rfl, ?_⟩
+    simp only [withinBuffers, f0, f10]; norm_num
+  · rw [C11_pipeline_exact_ideal _ _ _ _ _ (by norm_num) m1]
+    rintro ⟨_, c, rfl, hw⟩
+    simp only [withinBuffers, f1, f10] at hw
+    norm_num at hw
+
+
+/-- bounds of the result: every side moves outwards by at least `ρ` buffers or reaches the edge
+    of the domain -/
+theorem C11_pipeline_bounds_extend (buf : PSet → PSet) (S : PSet) (g : Geom) (b rb : Bounds)
+    (ρ tb fb m maxT : Rat) (hρ : 0 ≤ ρ) (h1 : 0 ≤ tb) (h2 : 0 ≤ fb) (hm0 : 0 ≤ m)
+    (hc : closedForm g = false) (hv : valid g = true) (hb : g.bounds = some b)
+    (hS : ∀ c ∈ g.boundPts, S c) (hdisc : CoversDisc ρ buf) (hm : IsMaxTime buf S tb fb maxT)
+    (hrb : ∀ p, pipelineSet buf S tb fb m maxT p → inRect rb p) :
+    rb.st ≤ max (b.st - ρ * tb) 0 ∧ rb.lo ≤ max (b.lo - ρ * fb) 0 ∧
+    b.en + ρ * tb ≤ rb.en ∧ min (b.hi + ρ * fb) MAXF ≤ rb.hi := by
+  have hM := maxf_nonneg
+  have hall := valid_boundPts_inDomain g hc hv
+  obtain ⟨_, ⟨p1, hp1, e1⟩, ⟨p2, hp2, e2⟩, ⟨p3, hp3, e3⟩, ⟨p4, hp4, e4⟩⟩ :=
+    SE.Proofs.Lemmas.Bounds.ptsBounds_isBoundsOf _ _ hb
+  have ρt : 0 ≤ ρ * tb := mul_nonneg hρ h1
+  have ρf : 0 ≤ ρ * fb := mul_nonneg hρ h2
+  have z : ∀ b' : Rat, ((0 : Rat) * factor b') * ((0 : Rat) * factor b') = 0 := by intro b'; ring
+  have key : ∀ (c p : Pt), c ∈ g.boundPts → inDomain p →
+      (-(ρ * tb) ≤ p.1 - c.1 ∧ p.1 - c.1 ≤ ρ * tb ∧ p.2 = c.2) ∨
+      (-(ρ * fb) ≤ p.2 - c.2 ∧ p.2 - c.2 ≤ ρ * fb ∧ p.1 = c.1) → inRect rb p := by
+    intro c p hcm hp hcase
+    apply hrb
+    apply C11_pipeline_covers_buffers buf S ρ tb fb m maxT hm0 hdisc hm c p (hS c hcm) hp
+    unfold withinBuffers
+    rcases hcase with ⟨a1, a2, a3⟩ | ⟨a1, a2, a3⟩
+    · have := axis_within ρ tb (p.1 - c.1) hρ h1 a1 a2
+      rw [a3, sub_self, z]; linarith
+    · have := axis_within ρ fb (p.2 - c.2) hρ h2 a1 a2
+      rw [a3, sub_self, z]; linarith
+  obtain ⟨d1a, d1b, d1c⟩ := hall p1 hp1
+  obtain ⟨d2a, d2b, d2c⟩ := hall p2 hp2
+  obtain ⟨d3a, d3b, d3c⟩ := hall p3 hp3
+  obtain ⟨d4a, d4b, d4c⟩ := hall p4 hp4
+  refine ⟨?_, ?_, ?_, ?_⟩
+  · have := key p1 (max (p1.1 - ρ * tb) 0, p1.2) hp1 ⟨le_max_right _ _, d1b, d1c⟩
+      (Or.inl ⟨by simp only; have := le_max_left (p1.1 - ρ * tb) 0; linarith,
+               by simp only; rcases max_choice (p1.1 - ρ * tb) 0 with h | h <;> rw [h] <;> linarith, rfl⟩)
+    rw [← e1]; exact this.1
+  · have := key p2 (p2.1, max (p2.2 - ρ * fb) 0) hp2
+      ⟨d2a, le_max_right _ _, by rcases max_choice (p2.2 - ρ * fb) 0 with h | h <;> simp only [h] <;> linarith⟩
+      (Or.inr ⟨by simp only; have := le_max_left (p2.2 - ρ * fb) 0; linarith,
+               by simp only; rcases max_choice (p2.2 - ρ * fb) 0 with h | h <;> rw [h] <;> linarith, rfl⟩)
+    rw [← e2]; exact this.2.2.1
+  · have := key p3 (p3.1 + ρ * tb, p3.2) hp3 ⟨by simp only; linarith, d3b, d3c⟩
+      (Or.inl ⟨by simp only; linarith, by simp only; linarith, rfl⟩)
+    rw [← e3]; exact this.2.1
+  · have := key p4 (p4.1, min (p4.2 + ρ * fb) MAXF) hp4
+      ⟨d4a, by rcases min_choice (p4.2 + ρ * fb) MAXF with h | h <;> simp only [h] <;> linarith, min_le_right _ _⟩
+      (Or.inr ⟨by simp only; rcases min_choice (p4.2 + ρ * fb) MAXF with h | h <;> rw [h] <;> linarith,
+               by simp only; have := min_le_left (p4.2 + ρ * fb) MAXF; linarith, rfl⟩)
+    rw [← e4]; exact this.2.2.2
+
+-- non-vacuity of the pipeline model: the skeleton on concrete numbers (time buffer 2 → factor 1/2,
+-- zero frequency buffer → factor 1e9), and a point of the ideal result
+example : pipelineSkeleton 1 1000 3 4 5 11 2 0 =
+    ((1 / 2, 1000000000000), 1, (6, 4 / 1000000000), 0, 0, true, 5000000) := by decide +kernel
+example : pipelineSkeleton 1 1000 3 4 5 11 2 0 = pipelineSkeletonSpec 1 1000 3 4 2 0 := by decide +kernel
+example : (pipelineSkeleton 1 1000 3 4 5 9 2 0).2.2.2.2.2.1 = false := by decide +kernel   -- a clip that cuts
+example : factor (-3) = 1000000000 ∧ factor 0 = 1000000000 ∧ factor 4 = 1 / 4 := by decide +kernel
+example : withinBuffersB 1 2 10 (3, 1000) (1, 1000) = true ∧ withinBuffersB 1 2 10 (3, 1001) (1, 1000) = false := by
+  decide +kernel
 
 end SE.Proofs.C11
